@@ -121,8 +121,13 @@ ExplainedByTrivialNegation(orig, res) ==
       H == {h \in NonInputSet(orig) : leaves(h) # {}}
       choices == FoldLeft(LAMBDA acc, h : {(h :> x) @@ f : f \in acc, x \in {h} \cup leaves(h)},
                           {[l \in Labels(orig) \ H |-> l]}, SetToSeq(H))
-  IN /\ Cardinality(H) <= 7
-     /\ \E m \in choices : (\E h \in H : m[h] # h) /\ WF5(Redirect(orig, m)) /\ TT(Redirect(orig, m)) = TT(res)
+      \* many candidate gates (circuits with constants and duplicated functions): at most two redirected gates
+      few == UNION {{[l \in Labels(orig) |-> IF l \in S THEN f[l] ELSE l] :
+                        f \in {g \in [S -> Labels(orig)] : \A h \in S : g[h] \in leaves(h)}} :
+                    S \in {T \in SUBSET H : Cardinality(T) \in 1 .. 2}}
+      cands == IF Cardinality(H) <= 7 THEN {m \in choices : \E h \in H : m[h] # h}
+               ELSE IF Cardinality(H) <= 16 THEN few ELSE {}
+  IN \E m \in cands : WF5(Redirect(orig, m)) /\ TT(Redirect(orig, m)) = TT(res)
 
 (* Named deviation Dev_IncompleteCutFamily (known finding): the algorithm derives the member
    gates of a cut's cone from the cuts OTHER nodes were given.  If the supplied family is not
